@@ -23,7 +23,7 @@ from common import hexf, unhex, close, TOL, run_driver
 import scen_c18 as sc
 
 META = {
-    'text': 'Theorems (Lean 4; pure data movement, hence generic in the value type: any array contents incl. NaN, any number of particles, compounds, tracers, rows): for the transcribed writers/readers of single_bubble_model, bent_plume_model, stratified_plume_model, dispersed_phases.save/load_particle_to/from_nc_file and ambient.create_nc_db/fill_nc_db/get_nc_data, load(save x) returns every solution array (t,y / t,q / zi,yi,zo,yo), every model parameter and every STORED particle-definition field of x exactly (load_save_id_partial = particles_load_save_partial, sbm/bpm_file/spm_load_save_partial, *_arrays_exact, profile_load_save; bpm_load_save_partial is the whole load_sim, equal up to the LagElement reset of integrate,t,x,y,z, an explicit exclusion), and save(load(save x)) = save x (particles/bpm_file/spm_resave_fixpoint; bpm_resave_after_load). The full statement is FALSE for the code as written; the negations are proved with concrete witnesses: delta, lag_time, the k_bio/t_bio/C_pen/C_pen_T entries of user data, k_bio/t_bio/fp_type of insoluble particles, a particle\'s own composition and cj with other than one tracer are not stored (two different definitions give one file; load_save_id_false), save_sim raises without tracers, re-saving a reloaded single-particle model raises (sbm_resave_raises). PIPELINES of every run: (1) particle lists of the three classes (random + every run: lists mixing soluble particles with/without user data, differing fp_type/delta/delta_groups/sigma per particle, reordered / shorter compositions, new compound names): save, file vs model, load, compare, re-save, re-load; (2) profile files: write, file vs model, read back, interpolate; (2b) casts to which 1-3 variables (chemistry, currents, tracer) are APPENDED from data covering only part of the depth range (top / bottom / both ends missing, beyond the cast, 2-20 samples) through Profile.append and through fill_nc_db: written, closed, read back (netCDF4.Dataset and file name) and compared with the in-memory profile for every variable inside, at the ends of and outside the sampled range (T,S,P bit for bit; appended columns to 1e-12: two separately rounded evaluations of one interpolant), and re-attached by load_sim of a simulation that used it (to the 1 % default coarsening); floor >= 5 casts and all four coverage modes per run; (3) simulations sbm x {soluble, inert}, bpm x {soluble tracked, inert with tracers, mixed, one without tracers}, spm x {soluble, inert, mixed}: save, file vs model, load into a new object, every array bit for bit and every definition field, RE-SAVE and RE-LOAD (reached by every one of them: coverage obligations; a raise with the exact signature of a recorded defect is reported and then bypassed — cj=[0.] for no tracers, float K_T0 for the reloaded single-particle model — so that the later stages still run), text export, re-attached profile, load with the profile file absent.',
+    'text': 'Theorems (Lean 4; pure data movement, hence generic in the value type: any array contents incl. NaN, any number of particles, compounds, tracers, rows): for the transcribed writers/readers of single_bubble_model, bent_plume_model, stratified_plume_model, dispersed_phases.save/load_particle_to/from_nc_file and ambient.create_nc_db/fill_nc_db/get_nc_data, load(save x) returns every solution array (t,y / t,q / zi,yi,zo,yo), every model parameter and every STORED particle-definition field of x exactly (load_save_id_partial = particles_load_save_partial, sbm/bpm_file/spm_load_save_partial, *_arrays_exact, profile_load_save; bpm_load_save_partial is the whole load_sim, equal up to the LagElement reset of integrate,t,x,y,z, an explicit exclusion), and save(load(save x)) = save x (particles/bpm_file/spm_resave_fixpoint; bpm_resave_after_load). The full statement is FALSE for the code as written; the negations are proved with concrete witnesses: delta, lag_time, the k_bio/t_bio/C_pen/C_pen_T entries of user data, k_bio/t_bio/fp_type of insoluble particles, a particle\'s own composition and cj with other than one tracer are not stored (two different definitions give one file; load_save_id_false), save_sim raises without tracers, re-saving a reloaded single-particle model raises (sbm_resave_raises). PIPELINES of every run: (1) particle lists of the three classes (random + every run: lists mixing soluble particles with/without user data, differing fp_type/delta/delta_groups/sigma per particle, reordered / shorter compositions, new compound names): save, file vs model, load, compare, re-save, re-load; (2) profile files: write, file vs model, read back, interpolate; (2b) casts to which 1-3 variables (chemistry, currents, tracer) are APPENDED from data covering only part of the depth range (top / bottom / both ends missing, beyond the cast, 2-20 samples) through Profile.append and through fill_nc_db: written, closed, read back (netCDF4.Dataset and file name) and compared with the in-memory profile for every variable inside, at the ends of and outside the sampled range (T,S,P bit for bit; appended columns to 1e-12: two separately rounded evaluations of one interpolant), and re-attached by load_sim of a simulation that used it (to the 1 % default coarsening); (2c) HISTORY: three single-particle pipelines in one process that rewrite one and the same profile path with different contents (run, save, load) plus one more on the unchanged path: every reloaded model carries the profile its own simulation used (bit for bit) and a later load does not alter an earlier reloaded model\'s profile; floor >= 5 casts and all four coverage modes per run; (3) simulations sbm x {soluble, inert}, bpm x {soluble tracked, inert with tracers, mixed, one without tracers}, spm x {soluble, inert, mixed}: save, file vs model, load into a new object, every array bit for bit and every definition field, RE-SAVE and RE-LOAD (reached by every one of them: coverage obligations; a raise with the exact signature of a recorded defect is reported and then bypassed — cj=[0.] for no tracers, float K_T0 for the reloaded single-particle model — so that the later stages still run), text export, re-attached profile, load with the profile file absent.',
     'note': 'Trusted: Lean kernel + 3 standard axioms; my transcription of the writers/readers (tied on every run by comparing the real netCDF file — names, order, dtypes, dimensions, attributes, written cells, values — with the model\'s save, and the real load_sim / loader with the model\'s load). NOT modelled, assumed by contract: netCDF4/xarray store and return arrays and attributes unchanged (f8/i4 cells, fill value for unwritten cells, numpy broadcasting of a length-1 source into a slice); " ".join/str.split are inverse on whitespace-free names; numpy.savetxt/loadtxt (%.18e round-trips a double; checked by reading the text back). The values LagElement.update gives integrate,t,x,y,z of a reloaded bent-plume particle are an INPUT of the model (taken from the real reloaded object): that the end-of-simulation state in the file is discarded is proved (bpm_state_reset_on_load), recorded in the histogram and not counted as a violation (state, not a definition field). The profile theorem covers the first fill of an empty data base; the interpolating re-fill branch of fill_nc_db, the Profile constructor and the re-attachment of the profile on load are sampled only (bit-for-bit). The delta_groups theorem carries the guard "no row sums to zero" (FluidWF.nozero): that loss is found on the real code only. Known-finding keys are emitted only for the documented signature (direction of the value loss; exception type + innermost tamoc frame + source line + triggering condition); anything else gets its own key. The only arithmetic on the path (re-normalisation of delta_groups by the FluidMixture constructor) is compared at 1e-15 (real vs real) / 1e-11 (model vs real).',
     'technique': 'Lean 4 proof about a hand model of the (de)serialisers + file-level differential execution against the real code',
 }
@@ -1092,6 +1092,79 @@ def check_profile_append(ctx, tmp, idx, ps, mode, route, with_sim):
     return not bad
 
 
+def check_profile_history(ctx, tmp):
+    """HISTORY class: several save / load pipelines in ONE process whose profile files share one path.
+    (1) a batch that rewrites ctd.nc per site (different contents), runs, saves and loads: every reloaded model must carry
+    the profile its own simulation used, and loading a later site must not alter the profile of an already loaded model;
+    (2) two save files that point to the same UNCHANGED profile file: both reload with that profile."""
+    from tamoc import single_bubble_model, dbm
+    rng = ctx.rng
+    hdir = os.path.join(tmp, 'history')
+    os.makedirs(hdir, exist_ok=True)
+    ctd = os.path.join(hdir, 'ctd.nc')
+    q = ['temperature', 'salinity', 'pressure', 'ua']
+    loaded = []           # (site, reloaded model, values of its profile when it was loaded, depths)
+    prf = ps = None
+
+    def run_site(site, rewrite):
+        nonlocal prf, ps
+        if rewrite:
+            if os.path.exists(ctd):
+                os.remove(ctd)
+            ps = sc.profile_spec(rng, H=rng.choice([300., 500.]), current=rng.choice([0., 0.1]))
+            with sc.quiet():
+                nc, _d, _n, _u, _c = sc.write_profile(ps, ctd)
+                nc.close()
+            prf = sc.profile_from_file(ctd)
+        m = single_bubble_model.Model(prf)
+        with sc.quiet():
+            m.simulate(dbm.InsolubleParticle(True, False, rho_p=rng.uniform(850., 950.)), np.array([0., 0., 0.5 * ps['H']]),
+                       rng.uniform(0.002, 0.005), 1., delta_t=20.)
+        f = os.path.join(hdir, 'site%d.nc' % site)
+        with sc.quiet():
+            m.save_sim(f, 'ctd.nc', 'site %d' % site)
+            m2 = single_bubble_model.Model(simfile=f)
+        zz = np.concatenate([np.linspace(0., ps['H'], 23), np.random.default_rng(site).uniform(-5., ps['H'] + 5., 40)])
+        used = m.profile.get_values(zz, q)
+        ctx.evaluations += used.size
+        case = {'site': site, 'rewritten': rewrite, 'profile': sc.jsonable(ps)}
+        if m2.profile is None:
+            ctx.violation('profile-reattach-differs', 'history: load_sim of site %d did not re-attach a profile' % site, case)
+            return
+        got = m2.profile.get_values(zz, q)
+        if not same(used, got):
+            k = np.unravel_index(int(np.nanargmax(np.abs(used - got))), used.shape)
+            ctx.violation('profile-reattach-stale', 'history: after the profile file ctd.nc was %s for site %d, the reloaded model\'s profile does not '
+                          'interpolate like the one the simulation used: %s at z = %.5g m used %.9g reloaded %.9g'
+                          % ('rewritten' if rewrite else 'left unchanged', site, q[k[1]], zz[k[0]], used[k], got[k]),
+                          dict(case, variable=q[k[1]], z=float(zz[k[0]]), used=float(used[k]), reloaded=float(got[k])))
+        if not (same(farr(m.t), farr(m2.t)) and same(farr(m.y), farr(m2.y))):
+            ctx.violation('array:y', 'history: solution arrays of site %d differ after reload' % site, case)
+        # loading this site must not have touched the models loaded before
+        for site0, m0, vals0, zz0 in loaded:
+            now = m0.profile.get_values(zz0, q)
+            if m0.profile is m2.profile and rewrite:
+                ctx.violation('profile-reattach-stale', 'history: the models reloaded for site %d and site %d share ONE profile object although '
+                              'ctd.nc was rewritten in between' % (site0, site), case)
+            elif not same(vals0, now):
+                ctx.violation('profile-reattach-stale', 'history: loading site %d altered the profile of the model already loaded for site %d'
+                              % (site, site0), case)
+        loaded.append((site, m2, got, zz))
+        ctx.count('history: site with %s profile file' % ('rewritten' if rewrite else 'unchanged'))
+
+    try:
+        run_site(0, True)
+        run_site(1, True)            # same path, other contents
+        run_site(2, True)
+        run_site(3, False)           # a second save file pointing to the same, unchanged profile file
+    except Exception as e:
+        report_raise(ctx, e, 'history', 'sbm', {}, 'history of save/load pipelines sharing one profile path', {'profile': ps})
+    shutil.rmtree(hdir, ignore_errors=True)
+    ctx.oblige('history: 3 pipelines rewriting one profile path + 1 on the unchanged path were saved, loaded and compared (%d)' % len(loaded),
+               len(loaded) == 4, '%d' % len(loaded))
+    ctx.nontrivial.add(('history', len(loaded)))
+
+
 def farfield_pairs(m, m2):
     out = []
     for i, (p, q) in enumerate(zip(m.particles, m2.particles)):
@@ -1390,12 +1463,20 @@ def _run(ctx, lean_ok, tmp):
     for mode in ('top-missing', 'bottom-missing', 'both-missing', 'beyond'):
         ctx.oblige('coverage: appended data with %s compared' % mode,
                    any(k.startswith('appended profile: %s,' % mode) for k in ctx.hist), 'not generated')
+    # ---- B''. history: pipelines in one process that share a profile path -------------------------------
+    check_profile_history(ctx, tmp)
     # ---- C. real simulations ---------------------------------------------------------------------
     mk = {'sbm': sc.sbm_spec, 'bpm': sc.bpm_spec, 'spm': sc.spm_spec}
     done = {}
     unsorted_done = {}
     cov = {}
-    for n, (kind, kw) in enumerate(sim_plan(ctx)):
+    plan = sim_plan(ctx)
+    mandatory = 9           # the first entries carry the coverage obligations
+    retried = {}
+    n = -1
+    while n + 1 < len(plan):
+        n += 1
+        kind, kw = plan[n]
         m = spec = None
         for attempt in range(6):
             spec = mk[kind](rng, **kw)
@@ -1444,6 +1525,13 @@ def _run(ctx, lean_ok, tmp):
             cov.setdefault((kind, spec['kind']), set()).add(st)
         if kind == 'bpm' and spec['track'] and any(p.farfield for p in m.particles) and 'reload' in reached:
             cov.setdefault(('bpm', 'tracked'), set()).add('reload')
+        src = retried.get(n, n)
+        if src < mandatory and 'reload' not in reached and sum(1 for v in retried.values() if v == src) < 3:
+            # a recorded defect that cannot be bypassed (e.g. the zero-row delta_groups load failure) stopped this
+            # pipeline: it is reported; the coverage obligation is served by another specification of the same entry
+            plan.append((kind, kw))
+            retried[len(plan) - 1] = src
+            ctx.count('planned pipeline stopped early by a reported defect: respecified')
         shutil.rmtree(cdir, ignore_errors=True)
     for kind in ('sbm', 'bpm', 'spm'):
         ctx.oblige('at least one completed %s simulation was saved and reloaded (the check is not vacuous)' % kind,
